@@ -612,17 +612,6 @@ theorem inttAvx_eq_inttK (r : RedC) (last : LevelC) (revL : List LevelC) (j : Na
 
 /-! ### the `u64` tables: the AVX2 kernels read the very `NttTable` / `NttTableInv` the reference reads -/
 
-def stepCOf (m : StepMeta) : StepC :=
-  { q2bs := BitVec.ofNat 64 m.q2bs, mask := BitVec.ofNat 64 m.mask, halfBs := BitVec.ofNat 64 m.halfBs, reduce := m.reduce }
-def levelCOf (l : Level) : LevelC := { m := stepCOf l.1, bs := l.1.bs, tw := l.2.map (BitVec.ofNat 64) }
-def redCOf (r : ReducK) : RedC := { h := BitVec.ofNat 64 r.h, mask := BitVec.ofNat 64 r.mask, cst := BitVec.ofNat 64 r.cst }
-
-/-- every field of the table is a `u64` (it is: the crate stores them in `u64` / `[u64; 4]` fields) -/
-def fitsLevel (l : Level) : Bool :=
-  decide (l.1.q2bs < 2 ^ 64) && decide (l.1.mask < 2 ^ 64) && decide (l.1.halfBs < 2 ^ 64) && l.2.all (fun x => decide (x < 2 ^ 64))
-def fitsTable (t : TableK) : Bool :=
-  t.levels.all fitsLevel && decide (t.reduc.h < 2 ^ 64) && decide (t.reduc.mask < 2 ^ 64) && decide (t.reduc.cst < 2 ^ 64)
-
 theorem toLevel_levelCOf (l : Level) (h : fitsLevel l = true) : (levelCOf l).toLevel = l := by
   unfold fitsLevel at h
   simp only [Bool.and_eq_true, decide_eq_true_eq, List.all_eq_true] at h
@@ -783,19 +772,7 @@ theorem bToZnx128Core_eq_centre (P : PrimeSet) (g : P.Good) (x0 x1 x2 x3 : Nat) 
       intro hc; apply h; exact_mod_cast hc
     rw [if_neg h', if_neg h]
 
-/-- the Primes30 constant vectors of `arithmetic_avx.rs` (`Q_VEC`, `BARRETT_MU`, `POW32_CRT`, `POW16_CRT`, `CRT_VEC`, `QM_HI/MID/LO`) -/
-def Q30 (k : Nat) : Nat := primes30.qs.getD k 1
-def CRT30 (k : Nat) : Nat := primes30.crt.getD k 0
-def QM30 (k : Nat) : Nat := bigQ primes30 / Q30 k
-def v4 (f : Nat → Nat) : V4 := ⟨BitVec.ofNat 64 (f 0), BitVec.ofNat 64 (f 1), BitVec.ofNat 64 (f 2), BitVec.ofNat 64 (f 3)⟩
-def qV : V4 := v4 Q30
-def muV : V4 := v4 (fun k => (compactCst (Q30 k) (CRT30 k)).1)
-def p32V : V4 := v4 (fun k => (compactCst (Q30 k) (CRT30 k)).2.1)
-def p16V : V4 := v4 (fun k => (compactCst (Q30 k) (CRT30 k)).2.2)
-def crtV : V4 := v4 CRT30
-def hiV : V4 := v4 (fun k => QM30 k / 2 ^ 64)
-def midV : V4 := v4 (fun k => QM30 k / 2 ^ 32 % 2 ^ 32)
-def loV : V4 := v4 (fun k => QM30 k % 2 ^ 32)
+theorem totQ30_eq : totQ30 = bigQ primes30 := rfl
 
 theorem primes30_crtC (k : Nat) (hk : k < 4) :
     CrtC (BitVec.ofNat 64 (Q30 k)) (BitVec.ofNat 64 (compactCst (Q30 k) (CRT30 k)).1) (BitVec.ofNat 64 (compactCst (Q30 k) (CRT30 k)).2.1)
